@@ -7,10 +7,15 @@ TABLE = os.path.join(VERIF, "spec", "panic_allow.json")
 DERIVE_MACROS = ("Serialize", "Deserialize", "::ruma_events::exports::serde::Serialize", "::ruma_events::exports::serde::Deserialize")
 
 
-def load_table():
+def load_table(extra=False):
+    """spec/panic_allow.json (configuration A); with extra=True also spec/panic_allow_B.json (sites that exist only with the extended features)."""
     with open(TABLE) as f:
         data = json.load(f)
-    return {e["key"]: e for e in data["entries"]}
+    out = {e["key"]: e for e in data["entries"]}
+    if extra:
+        with open(TABLE.replace("panic_allow.json", "panic_allow_B.json")) as f:
+            out.update({e["key"]: e for e in json.load(f)["entries"]})
+    return out
 
 
 def norm_path(path):
@@ -189,7 +194,7 @@ def auto_discharge(world, fn, s, const_only_fns):
         return "CONST-ITEM: evaluated at compile time (a panic is a build error)"
     if fn["path"] in const_only_fns or any(fn["path"].startswith(p + "::{") for p in const_only_fns):
         return "CONST-FN: const fn whose every workspace caller is a const item (checked on the call graph)"
-    if kind == "assert:overflow" and any(m in DERIVE_MACROS for m in mac) and (fn.get("impl") or {}).get("derived"):
+    if kind == "assert:overflow" and any(m in DERIVE_MACROS or m.rsplit("::", 1)[-1] in ("Serialize", "Deserialize") for m in mac) and (fn.get("impl") or {}).get("derived"):
         return "DERIVE: field counter of a derived serde impl, bounded by the number of fields"
     body = list(M.all_bodies(fn))[s["body"]]
     if kind in ("str_index", "index") and s["call"].get("fnargs") and s["call"]["fnargs"][-1] == "core::ops::range::RangeFull":
@@ -504,9 +509,9 @@ def refcell_discharge(world, fn, body, s):
 # ------------------------------------------------------------------------------------------------
 # rule drivers
 # ------------------------------------------------------------------------------------------------
-def site_rule(ctx, world, crate_names, rule, fn_filter=None, floor=None, report_stale=False):
+def site_rule(ctx, world, crate_names, rule, fn_filter=None, floor=None, report_stale=False, extra_table=False):
     """Every site is auto-discharged or reviewed; anything else is a violation keyed by the site (no line numbers)."""
-    table = load_table()
+    table = load_table(extra_table)
     const_only = const_only_functions(world)
     n_auto, n_table, seen_keys = 0, 0, set()
     by_cat = {}
